@@ -105,9 +105,9 @@ def split_use_token(tok):
 
 
 def use_holds(tokens, iuse, use):
-    """(verdict, via_default): verdict False when some token definitely fails, None when no token definitely fails but
-    the statement is silent about one (a no-default USE dep on a flag absent from IUSE), else True.
-    via_default: a (+)/(-) default decided some token."""
+    """(verdict, via_default): verdict None when the statement is silent about some token (a no-default USE dep on a
+    flag absent from IUSE; PMS calls that an error, so the whole USE part is left unjudged), else whether every token
+    holds.  via_default: a (+)/(-) default decided some token."""
     via_default = False
     undefined = False
     ok = True
@@ -123,11 +123,9 @@ def use_holds(tokens, iuse, use):
             enabled = default == "+"
         if enabled == neg:
             ok = False
-    if not ok:
-        return False, via_default
     if undefined:
         return None, via_default
-    return True, via_default
+    return ok, via_default
 
 
 def match_reason(ad, pd):
